@@ -47,6 +47,10 @@ enum XOp {
     /// map, peekable) whose closure is a user callback. iter: 0 into_iter 1 into_keys
     /// 2 into_values 3 drain 4 iter_mut 5 iter 6 values_mut 7 Set::into_iter 8 Set::drain 9 Set::iter
     Driven { iter: u8, how: u8 },
+    /// `Map::from([(K, V); N])` / `Set::from([T; N])` of the idx-th key sequence of length N over
+    /// the universe (every repetition pattern). Independent of the state: swept from the empty state only.
+    FromArray { idx: u16 },
+    SetFromArray { idx: u16 },
 }
 const N_HOW: u8 = 9;
 
@@ -127,6 +131,10 @@ fn xops(n: usize, nk: u8) -> Vec<XOp> {
         for how in 0..N_HOW {
             v.push(XOp::Driven { iter, how });
         }
+    }
+    for idx in 0..(nk as usize).pow(n as u32).min(4096) {
+        v.push(XOp::FromArray { idx: idx as u16 });
+        v.push(XOp::SetFromArray { idx: idx as u16 });
     }
     for mask in 0..(1u16 << nk) {
         let mask = mask as u8;
@@ -267,6 +275,9 @@ fn sweep_state<const N: usize>(
     }
     // group B: clone, ==, bulk construction, consuming iterators, drop, and the Set API
     for (xi, x) in xs.iter().enumerate() {
+        if matches!(x, XOp::FromArray { .. } | XOp::SetFromArray { .. }) && !path.is_empty() {
+            continue;
+        }
         cx.here.op_idx = 100_000 + xi as u32;
         cx.here.op = format!("{x:?}");
         crumb(&cx.here.op);
@@ -622,6 +633,42 @@ fn run_x<const N: usize>(gsys: &MapSys<Kx, Vx, N>, path: &[u32], x: XOp, at: u32
             flush_ledger(cx, PM, "during the driven iteration / the unwinding");
             drop(hk);
             drop(hv);
+        }
+        XOp::FromArray { idx } | XOp::SetFromArray { idx } => {
+            mapbx = None;
+            let mut i = idx as usize;
+            let seq: Vec<u8> = (0..N)
+                .map(|_| {
+                    let k = (i % nk as usize) as u8;
+                    i /= nk as usize;
+                    k
+                })
+                .collect();
+            if let XOp::FromArray { .. } = x {
+                let mut items: Vec<(Kx, Vx)> = seq.iter().enumerate().map(|(p, k)| (Kx::new(*k, (p % 2) as u8), Vx::new(0))).collect();
+                let mut it = items.drain(..);
+                let arr: [(Kx, Vx); N] = std::array::from_fn(|_| it.next().unwrap());
+                drop(it);
+                pl::arm(at);
+                let r = catch_unwind(AssertUnwindSafe(|| Map::<Kx, Vx, N>::from(arr)));
+                (ticks, fired) = pl::disarm();
+                flush_ledger(cx, PM, "during Map::from(array) / the unwinding");
+                if let Ok(c) = r {
+                    exercise_and_drop_map(Canary::boxed(c), nk, cx, PM, true);
+                }
+            } else {
+                let mut items: Vec<Kx> = seq.iter().enumerate().map(|(p, k)| Kx::new(*k, (p % 2) as u8)).collect();
+                let mut it = items.drain(..);
+                let arr: [Kx; N] = std::array::from_fn(|_| it.next().unwrap());
+                drop(it);
+                pl::arm(at);
+                let r = catch_unwind(AssertUnwindSafe(|| Set::<Kx, N>::from(arr)));
+                (ticks, fired) = pl::disarm();
+                flush_ledger(cx, PM, "during Set::from(array) / the unwinding");
+                if let Ok(c) = r {
+                    exercise_and_drop_set(Canary::boxed(c), nk, cx, PM, true);
+                }
+            }
         }
         XOp::SetEq { other_mask } => {
             mapbx = None;
